@@ -171,3 +171,47 @@ func DumpEvents(f string, sc *Scenario, evs []rig.Ev) {
 		fh.Write(append(b, '\n'))
 	}
 }
+
+// CompletionOrderClass is a coarse permutation class: the order in which the
+// destinations confirmed the first record that several of them confirmed, and
+// whether a later record was confirmed in a different order.
+func CompletionOrderClass(evs []rig.Ev) string {
+	order := map[rig.Lin][]string{}
+	var firstKey *rig.Lin
+	for i := range evs {
+		e := &evs[i]
+		if e.Kind != rig.KDstAck || e.Role != "dst" {
+			continue
+		}
+		for _, a := range e.Acks {
+			if a.Err != "" {
+				continue
+			}
+			o := a.Lin.Origin()
+			seen := false
+			for _, d := range order[o] {
+				if d == e.Comp {
+					seen = true
+				}
+			}
+			if !seen {
+				order[o] = append(order[o], e.Comp)
+				if firstKey == nil && len(order[o]) >= 2 {
+					k := o
+					firstKey = &k
+				}
+			}
+		}
+	}
+	if firstKey == nil {
+		return "single"
+	}
+	first := strings.Join(order[*firstKey], "<")
+	varies := false
+	for _, ds := range order {
+		if len(ds) >= 2 && strings.Join(ds, "<") != first && len(ds) == len(order[*firstKey]) {
+			varies = true
+		}
+	}
+	return fmt.Sprintf("%s|varies=%v", first, varies)
+}
